@@ -636,7 +636,8 @@ func ruleC13d(c *Ctx) {
 					okAll, why = false, "returns the result of "+shortCallee(&x.Call)+", which is not a fresh-object constructor"
 				case *ssa.Const:
 					if x.Value == nil {
-						continue // zero value of the local before the select assigns it
+						okAll, why = false, "can return nil (a branch does not assign the result): the caller dereferences it"
+						continue
 					}
 					okAll, why = false, "returns a constant"
 				default:
